@@ -158,16 +158,23 @@ def paragraphWrap (cfg : WrapCfg) (le : Option (DNode → DNode → Bool)) (fmt 
     (p : DNode) : Option DNode :=
   let g := groupBy (fun c => c.isNode && c.kind == .ENTRY)
     (fun c => c.kind == .ERROR || c.kind == .COMMENT) p.children []
-  let entries := match le with
-    | some f => g.1.mergeSort fun a b => f a.2 b.2
-    | none => g.1
-  -- `c.as_token().unwrap()` on the pending trivia
+  -- every entry is reformatted first (a panic there aborts the whole call), then the results are sorted
   match mapM' (fun (pe : List DNode × DNode) =>
-      match allTokens pe.1, entryWrap cfg fmt pe.2 with
-      | some pre, some e' => some (withNewlines pre ++ [e'])
-      | _, _ => none) entries, allTokens g.2 with
-  | some groups, some trailing => some (.node .PARAGRAPH (groups.flatten ++ withNewlines trailing))
-  | _, _ => none
+      match entryWrap cfg fmt pe.2 with
+      | some e' => some (pe.1, e')
+      | none => none) g.1 with
+  | none => none
+  | some wrapped =>
+    let entries := match le with
+      | some f => wrapped.mergeSort fun a b => f a.2 b.2
+      | none => wrapped
+    -- `c.as_token().unwrap()` on the pending trivia
+    match mapM' (fun (pe : List DNode × DNode) =>
+        match allTokens pe.1 with
+        | some pre => some (withNewlines pre ++ [pe.2])
+        | none => none) entries, allTokens g.2 with
+    | some groups, some trailing => some (.node .PARAGRAPH (groups.flatten ++ withNewlines trailing))
+    | _, _ => none
 
 /-- what `Deb822::wrap_and_sort` keeps of an EMPTY_LINE node: its COMMENT / ERROR children -/
 def emptyLineKeep (n : DNode) : List DNode :=
@@ -193,11 +200,17 @@ where emptyLine' : DNode := .node .EMPTY_LINE [Node.tok .NEWLINE ['\n']]
 def deb822Wrap (le : Option (DNode → DNode → Bool)) (wrapPara : Option (DNode → Option DNode))
     (root : DNode) : Option DNode :=
   let g := groupRoot root.children []
-  let paras := match le with
-    | some f => g.1.mergeSort fun a b => f a.2 b.2
-    | none => g.1
   match mapM' (fun (pp : List DNode × DNode) =>
-      match allTokens pp.1, (match wrapPara with | some w => w pp.2 | none => some pp.2) with
+      match (match wrapPara with | some w => w pp.2 | none => some pp.2) with
+      | some p' => some (pp.1, p')
+      | none => none) g.1 with
+  | none => none
+  | some wrapped =>
+  let paras := match le with
+    | some f => wrapped.mergeSort fun a b => f a.2 b.2
+    | none => wrapped
+  match mapM' (fun (pp : List DNode × DNode) =>
+      match allTokens pp.1, some pp.2 with
       | some pre, some p' =>
         -- an unterminated paragraph gets its line terminator (a NEWLINE token under the root)
         let term : List DNode := match (leavesList [p']).getLast? with
